@@ -219,12 +219,17 @@ def run(ctx):
                 "size field set to 0,1,2,max-1,max,orig+-1,2*orig,..., every byte value of every options/trace-info field, counts inside Merkle "
                 "path blobs, components resized consistently (prefix rewritten), nuq+tables, layers added/removed, trace metadata (valid proofs with metadata; contexts re-serialised with metadata of lengths 0..3*EB and 65535 filled with 00/FF/modulus/modulus+-1/random at every alignment), Lagrange frames, OOD frame "
                 "sizes, the gkr vint64 length at every boundary of the encoding (…, 2^56+-1, 2^63+-1, 2^64-2, 2^64-1, 2^64-pos+-2) in every encoding length 1..9 incl. non-canonical forms, foreign modulus, metadata, truncation, trailing bytes, single-bit/byte changes (exhaustive on the "
-                "smallest proof in thorough), perturbed public inputs; model answers a SET (one run per first failing value-dependent check and per "
+                "smallest proof in thorough), perturbed public inputs, and the element-level classes: noncanonical:<component>:<pos>.<limb>=<kind> (ONE base-field word - first/middle/last "
+                "element, every limb of an extension element - of the OOD trace states / evaluations, opened main / auxiliary / constraint rows, FRI rows of every layer, remainder, and of "
+                "Rescue digests (commitments, Merkle nodes; Rp64_256, RpJive64_256, Rp62_248) overwritten with modulus, modulus+1, all ones, modulus+original value; f64, f128 and f62; "
+                "all-zero proofs make the last kind representable) and frilayer:* (a FRI layer without values / paths / both, existing or inserted), each also against the typed parser "
+                "directly, with the outcome the property prescribes checked per (level, component, field, kind) cell and every cell required; model answers a SET (one run per first failing value-dependent check and per "
                 "position-count mismatch): impl must be in it, and an impl panic requires an all-panic set.  O/Q/F/C/D = the typed parsers and "
                 "draw_integers called directly with AIR-side parameters independent of the bytes (admissible and inadmissible): exact equality "
                 "incl. shapes.  P = arbitrary byte strings through Proof::from_bytes with the allocator's byte count <= model accounting <= bound. "
                 "falsifier (model-independent): no panic / abort / timeout > 5 s, largest single allocation <= 4*len+128KiB, total <= 3000*len+4MiB, "
-                "also with the plain FamAir and MinProvenSecurity; distinct = distinct case lines")
+                "also with the plain FamAir and MinProvenSecurity, plus (falsifier only: the model has no GKR step) proofs of a Lagrange-kernel AIR with a validating GKR verifier: GKR proof "
+                "absent / undecodable / decodable but wrong, Lagrange kernel frame resized, non-canonical Lagrange kernel states, against the documented error mapping; distinct = distinct case lines")
     ctx.assumptions += [
         "64-bit target (usize = u64); the model has debug-profile semantics (arithmetic overflow panics); release wraps and is observed separately",
         "value-dependent checks (hash comparisons, field-element equalities, proof of work) are oracle bits; the numbers of distinct (folded) "
@@ -233,7 +238,8 @@ def run(ctx):
         "trace layout and options: the AIR is the verifier's code, not untrusted input",
         "MerkleTree::verify_batch / BatchMerkleProof::get_root return Ok or Err (C10) and reject a number of indexes different from the number of leaves",
         "Vec growth is amortised doubling (at most 4x the bytes finally held are requested in total); memory safety of unsafe blocks is outside (C13 covers the adapter's)",
-        "AIRs with a Lagrange kernel column (GKR) are outside the verify_total theorem (ap_lagrange = false); the typed parsers are covered for them",
+        "AIRs with a Lagrange kernel column (GKR) are outside the verify_total theorem (ap_lagrange = false); the typed parsers are covered for them, and "
+        "verify() on their proofs is exercised by the falsifier against the documented error mapping (no model)",
     ]
     ctx.audit_sources()
     ctx.coq_build("C06")
@@ -313,7 +319,7 @@ def run(ctx):
             ctx.notes.setdefault("impl_outcomes", {})[profile] = dict(dist.most_common(40))
             need = ["V:ok", "V:parse-err", "V:err:ProofDeserializationError", "V:err:InconsistentOodConstraintEvaluations",
                     "V:err:TraceQueryDoesNotMatchCommitment", "V:err:InconsistentBaseField", "V:err:Fri.LayerCommitmentMismatch",
-                    "V:err:UnsupportedFieldExtension", "O:ok", "O:err", "Q:ok", "Q:err", "F:ok", "F:err", "C:ok", "C:err", "D:ok", "D:err",
+                    "V:err:UnsupportedFieldExtension", "V:err:UnacceptableProofOptions", "O:ok", "O:err", "Q:ok", "Q:err", "F:ok", "F:err", "C:ok", "C:err", "D:ok", "D:err",
                     "P:parse-err"]
             missing = [k for k in need if dist.get(k, 0) == 0]
             ctx.ob(f"corr-reaches-outcome-classes:{profile}", not missing, "never observed: " + ", ".join(missing))
